@@ -302,7 +302,14 @@ class Client(object):
         Service connection attempt
         If not already connected make a nonblocking attempt
         Returns .connected
+        If reconnectable and the connection was cut off by the far side
+        then after the reconnect timeout reopen and attempt to connect again
         """
+        if self.cutoff and self.reconnectable:  # lost connection
+            if self.timeout > 0.0 and self.timer.expired:  # timed out
+                self.reopen()  # clears .connected and .cutoff
+                self.timer.restart()
+
         if not self.connected:
             self.connect()
 
